@@ -303,7 +303,7 @@ theorem C17_while_tasks_witness :
 /-- C17 for `rerun=True`, synchronous loop, no `max_concurrent` limit: whatever results the cache and the readonly caches
     held (successful or errored, from whatever earlier values), a successful submission returns the reference outputs
     computed from THIS submission's body values — exactly what a first run on an empty cache returns (`C17_sync`).
-    (With a limit or an asynchronous worker the outputs may mix old and new values: finding D71,
+    (With a limit or an asynchronous worker the outputs may mix old and new values: finding D73,
     `C15_rerun_cut_job_keeps_old_result`, `C15_rerun_stale_read_race`.) -/
 theorem C17_rerun_sync_unlimited {wf : Wf} {sorted : List NodeId} (hw : WellFormed wf sorted) (hac : Acyclic wf.g)
     {r : NodeId → List Ck} (hrj : RefJobs wf r) (cfg : RCfg) (hr : cfg.rerun = true) (w0 : World) (fail : Ck → Bool)
